@@ -332,7 +332,7 @@ def load_value_estimate(file: LoadSource) -> ValueEstimate:
         array (numpy.array): the array
     """
 
-    if isinstance(file, str):
+    if isinstance(file, (str, bytes, os.PathLike)):
         with open(file, "r") as f:
             data = json.load(f)
     else:
@@ -364,7 +364,7 @@ def load_list(file: LoadSource) -> List:
         array (list): the list
     """
 
-    if isinstance(file, str):
+    if isinstance(file, (str, bytes, os.PathLike)):
         with open(file, "r") as f:
             data = json.load(f)
     else:
